@@ -30,6 +30,14 @@ PURE_BUILTINS = {'len', 'str', 'int', 'float', 'bool', 'tuple', 'list', 'dict', 
 EFFECT_BUILTINS = {'open', 'getattr', 'setattr', 'delattr', 'print', 'hasattr'}
 
 
+def _specs_of(v):
+    """Format specs of the holes of a partially known string (None where unknown)."""
+    n = v.a[0].count('⟦')
+    if len(v.a) > 2 and len(v.a[2]) == n:
+        return list(v.a[2])
+    return [None] * n
+
+
 class ExprMixin:
     # ------------------------------------------------------------------ utils
     def emit(self, st, kind, node, **d):
@@ -157,7 +165,8 @@ class ExprMixin:
             try:
                 return C(self.fold(mi.consts[name], fn.module))
             except ValueError:
-                return V('modconst', fn.module, name)
+                v = self.eval_module_const(fn.module, name)
+                return v if v is not None else V('modconst', fn.module, name)
         if name in mi.imports:
             tgt = mi.imports[name]
             if tgt.startswith('pkg:'):
@@ -172,7 +181,8 @@ class ExprMixin:
                         try:
                             return C(self.fold(om.consts[n], m))
                         except ValueError:
-                            return V('modconst', m, n)
+                            v = self.eval_module_const(m, n)
+                            return v if v is not None else V('modconst', m, n)
                 return V('extfn', tgt)
             return V('extfn', tgt)
         if name in PURE_BUILTINS or name in EFFECT_BUILTINS:
@@ -183,6 +193,35 @@ class ExprMixin:
         if hasattr(builtins, name):
             return V('builtin', name)
         return V('global', name)
+
+    def eval_module_const(self, module, name):
+        """Evaluate a module-level assignment abstractly (string building, comprehensions over constants).
+        Returns a value only if it is fully known (constants / tuples of constants / strings)."""
+        cache = self.__dict__.setdefault('_modconst_cache', {})
+        key = (module, name)
+        if key in cache:
+            return cache[key]
+        cache[key] = None
+        expr = self.prog.modules[module].consts.get(name)
+        if expr is None or isinstance(expr, ast.Call) and not isinstance(expr.func, (ast.Attribute, ast.Name)):
+            return None
+        from .interp import St
+        from .model import Func
+        fake = ast.parse('def __module__():\n    pass').body[0]
+        st = St(Func('%s.<module>' % module, module, None, '<module>', fake))
+        try:
+            res = self.eval(expr, st)
+        except Exception:
+            return None
+        if len(res) != 1 or isinstance(res[0][0], Raise) or res[0][1].trace:
+            return None
+        v = res[0][0]
+
+        def known(x):
+            return x.is_const or (x.k == 'tuple' and all(known(y) for y in x.a[0]))
+        if known(v):
+            cache[key] = v
+        return cache[key]
 
     def e_Tuple(self, e, st):
         if any(isinstance(x, ast.Starred) for x in e.elts):
@@ -251,6 +290,7 @@ class ExprMixin:
             it = iter(vals)
             text = ''
             exact = True
+            specs = []
             for p in parts:
                 if isinstance(p, str):
                     text += p
@@ -268,10 +308,12 @@ class ExprMixin:
                     exact = False
                     if v.k == 'str' and p.conversion == -1 and not spec:
                         text += v.a[0]
+                        specs.extend(_specs_of(v))
                     else:
                         text += sqlmod.hole(src_of(p.value))
+                        specs.append(spec if p.conversion == -1 else None)
             deps = tuple(x for x in vals if not x.is_const)
-            out.append(((C(text) if exact else V('str', text, deps)), s))
+            out.append(((C(text) if exact else V('str', text, deps, tuple(specs))), s))
         return out
 
     def e_IfExp(self, e, st):
@@ -400,6 +442,7 @@ class ExprMixin:
         args = list(r.a[0]) if r.k == 'tuple' else ([C(x) for x in r.val] if r.is_const and isinstance(r.val, tuple) else [r])
         it = iter(args)
         exact = [True]
+        specs = []      # format() spec of every hole, in order (so that the text can be instantiated later)
 
         def sub(m):
             if m.group(0) == '%%':
@@ -408,6 +451,7 @@ class ExprMixin:
                 a = next(it)
             except StopIteration:
                 exact[0] = False
+                specs.append(None)
                 return sqlmod.hole('missing')
             t = _as_text(a)
             if a.is_const:
@@ -417,12 +461,16 @@ class ExprMixin:
                     pass
             if a.k == 'str':
                 exact[0] = False
+                specs.extend(_specs_of(a))
                 return t
             exact[0] = False
+            conv = m.group(0)[-1]
+            specs.append({'s': '', 'r': '!r'}.get(conv, m.group(0)[1:]) if conv in 'sr' and len(m.group(0)) == 2
+                         else (m.group(0)[1:] if conv in 'dif' else None))
             return sqlmod.hole(_desc(a))
         text = re.sub(r'%%|%[-0-9.]*[sdrif]', sub, template)
         deps = tuple(a for a in args if not a.is_const)
-        return C(text) if exact[0] and '⟦' not in text else V('str', text, deps)
+        return C(text) if exact[0] and '⟦' not in text else V('str', text, deps, tuple(specs))
 
     def str_format(self, template, args, kwargs):
         it = iter(range(len(args)))
@@ -443,6 +491,7 @@ class ExprMixin:
                 a = kwargs.get(field)
             if a is None:
                 exact[0] = False
+                specs.append(None)
                 return sqlmod.hole(field or 'arg')
             if a.is_const:
                 try:
@@ -451,11 +500,14 @@ class ExprMixin:
                     pass
             exact[0] = False
             if a.k == 'str':
+                specs.extend(_specs_of(a))
                 return a.a[0]
+            specs.append(spec)
             return sqlmod.hole(field if field and not field.isdigit() else _desc(a))
+        specs = []
         text = re.sub(r'\{\{|\}\}|\{([^{}]*)\}', sub, template)
         deps = tuple(a for a in list(args) + list(kwargs.values()) if not a.is_const)
-        return C(text) if exact[0] and '⟦' not in text else V('str', text, deps)
+        return C(text) if exact[0] and '⟦' not in text else V('str', text, deps, tuple(specs))
 
     # ------------------------------------------------------------- attribute
     def e_Attribute(self, e, st):
@@ -602,7 +654,50 @@ class ExprMixin:
     def e_Lambda(self, e, st):
         return [(V('lambda', id(e)), st)]
 
+    def _comp_concrete(self, e, elts, st):
+        """Single-generator comprehension over a fully known sequence: evaluate it element by element."""
+        if len(e.generators) != 1 or len(elts) != 1:
+            return None
+        g = e.generators[0]
+        its = self.eval(g.iter, st)
+        if len(its) != 1 or isinstance(its[0][0], Raise):
+            return None
+        itv, s = its[0]
+        seq = self.const_sequence(itv)
+        if seq is None or len(seq) > 64:
+            return None
+        saved = dict(s.env)
+        vals = []
+        for elem in seq:
+            r = self.assign(g.target, elem, s, g.iter)
+            if len(r) != 1 or isinstance(r[0], tuple):
+                return None
+            keep = True
+            for cond in g.ifs:
+                t = self.eval_test(cond, s)
+                if len(t) != 1 or isinstance(t[0][0], Raise):
+                    return None
+                keep = keep and t[0][0]
+                s = t[0][1]
+            if not keep:
+                continue
+            ev = self.eval(elts[0], s)
+            if len(ev) != 1 or isinstance(ev[0][0], Raise):
+                return None
+            vals.append(ev[0][0])
+            s = ev[0][1]
+        for nn in ast.walk(g.target):
+            if isinstance(nn, ast.Name):
+                if nn.id in saved:
+                    s.env[nn.id] = saved[nn.id]
+                else:
+                    s.env.pop(nn.id, None)
+        return [(tup(vals), s)]
+
     def _comp(self, e, elts, st):
+        c = self._comp_concrete(e, elts, st.fork())
+        if c is not None:
+            return c
         # evaluate generators once with element values bound, emit events of elt
         s = st
         saved = dict(s.env)
